@@ -187,6 +187,158 @@ Definition site3_eqb (a b : site3) : bool :=
 Definition unreviewed_state (l : list site3) : list site3 :=
   filter (fun r => negb (existsb (site3_eqb r) reviewed_state)) l.
 
+(* ---------- every package-level variable the translation can see (GenSqlSites.v translation_package_vars: all package-level
+   variables of the packages in the import closure of the translation packages and of the packages of reachable functions, with
+   two facts computed from the sources: some function other than init writes it -- assignment, element store, delete/copy/sort,
+   address taken, pointer-receiver method called on it -- and a function reachable from the translation entry points mentions it).
+   A variable with both facts is an input of the translation that is not an argument: each is reviewed here.
+   * the ten of reviewed_state (parsers/regexps used through pointer methods, protobuf tables, db-version cache, logger, table lock);
+   * the plugin slots of package plugins: nil unless a Register*Plugin function is called while the process starts (cmd wiring);
+     no translation function writes them (they are absent from translation_package_state). ---------- *)
+Definition site2 := (string * string)%type.
+Definition reviewed_vars : list site2 :=
+  [("logql/logql_transpiler_v2/internal_planner", "sanitizeRe");
+   ("plugins", "attrlessConditionPlannerPlugin"); ("plugins", "initClickhousePlannerPlugin");
+   ("plugins", "initDownsamplePlannerPlugin"); ("plugins", "initIndexPlannerPlugin"); ("plugins", "labelsGetterPlugin");
+   ("plugins", "logQLTranspilerPlugins"); ("plugins", "metrics15ShortcutPlannerPlugin"); ("plugins", "sqlMainInitPlannerPlugin");
+   ("plugins", "streamSelectPlannerPlugin"); ("plugins", "tableNamesPlugin"); ("plugins", "timeSeriesInitPlannerPlugin");
+   ("plugins", "traceDataPlugin");
+   ("prof", "file_querier_proto_enumTypes"); ("prof/parser", "Parser"); ("prof/types/v1", "file_types_v1_types_proto_enumTypes");
+   ("tempo", "tagsParser");
+   ("utils/dbVersion", "mtx"); ("utils/dbVersion", "throttled"); ("utils/dbVersion", "versions");
+   ("utils/logger", "Logger"); ("utils/tables", "lock")].
+Definition site2_eqb (a b : site2) : bool := String.eqb (fst a) (fst b) && String.eqb (snd a) (snd b).
+Definition var6 := (string * string * string * string * bool * bool)%type.
+Definition var_site (v : var6) : site2 := let '(p, n, _, _, _, _) := v in (p, n).
+Definition var_relevant (v : var6) : bool := let '(_, _, _, _, written, read) := v in written && read.
+(* written after init AND visible to the translation *)
+Definition relevant_vars (l : list var6) : list site2 := map var_site (filter var_relevant l).
+Definition unreviewed_vars (l : list var6) : list site2 :=
+  filter (fun s => negb (existsb (site2_eqb s) reviewed_vars)) (relevant_vars l).
+Fixpoint site2_list_eqb (a b : list site2) : bool :=
+  match a, b with
+  | [], [] => true
+  | x :: a', y :: b' => site2_eqb x y && site2_list_eqb a' b'
+  | _, _ => false
+  end.
+(* the state list is part of it: everything a translation function writes is something it can see *)
+Definition state_in_vars (st : list site3) : bool :=
+  forallb (fun s => let '(p, n, _) := s in existsb (site2_eqb (p, n)) reviewed_vars) st.
+
+(* ---------- every store into memory that outlives the call (GenSqlSites.v translation_field_writes): for each function reachable
+   from the translation entry points, every assignment / ++ / delete / copy / sort / library pointer-method call / sql_select builder
+   call on a stored object whose target is rooted at the receiver, a parameter or a local alias of one: (function, root, owner
+   type, field). Classified by (owner type, field); `*` = every field of a type whose objects are built and dropped inside one
+   Plan / Process call. Anything not classified fails the obligation; the Process-time planner types are classified field by
+   field, so a new cache field in a planner is a new, unreviewed line. ---------- *)
+Inductive wclass :=
+ | WModelled      (* a component of the model state: pst (fp_cache, labels_cache, pid) or the render counter rst *)
+ | WMemo          (* written once from immutable fields of the same object: every later call finds the same value *)
+ | WResetPerCall  (* scratch of one Process call: re-initialised by Process before it is read *)
+ | WPlanTime      (* fields of the builder object of ONE Plan call (planner{}, expression planners, request processors) *)
+ | WBuilder       (* sql_select objects under construction: a builder method stores into its receiver *)
+ | WContext       (* the PlannerContext argument, filled in / advanced by the caller side: an argument of `process` in the model *)
+ | WStream        (* rows flowing through the in-process pipeline (C09's subject): per-request data, not translation state *)
+ | WScriptCut     (* breakScript cuts the parsed script handed to Plan in place (latent: every caller parses per request) *)
+ | WNotTranslation(* reached only through the by-name expansion of interface calls: row fetching, not translation *).
+Definition wclass_eqb (a b : wclass) : bool :=
+  match a, b with
+  | WModelled, WModelled | WMemo, WMemo | WResetPerCall, WResetPerCall | WPlanTime, WPlanTime | WBuilder, WBuilder
+  | WContext, WContext | WStream, WStream | WScriptCut, WScriptCut | WNotTranslation, WNotTranslation => true
+  | _, _ => false
+  end.
+Definition chp := "logql/logql_transpiler_v2/clickhouse_planner".
+Definition inp := "logql/logql_transpiler_v2/internal_planner".
+Definition shp := "logql/logql_transpiler_v2/shared".
+Definition tqp := "traceql/transpiler/clickhouse_transpiler".
+Definition reviewed_writes : list (string * string * wclass) :=
+  [ (* the model state *)
+    (chp ++ ".WithConnectorPlanner", "WithCache", WModelled);      (* planner.fpCache: pst.fp_cache *)
+    (chp ++ ".LabelsJoinPlanner", "LabelsCache", WModelled);       (* planner.labelsCache: pst.labels_cache *)
+    (chp ++ ".ByWithoutPlanner", "LabelsCache", WModelled);
+    (chp ++ ".PlannerDropSimple", "LabelsCache", WModelled);
+    ("utils/sql_select.With", "[*]", WModelled);                   (* MainFinalizerPlanner.Process: *cache = nil, clear_caches *)
+    (shp ++ ".PlannerContext", "id", WModelled);                   (* pst.pid *)
+    ("utils/sql_select.Ctx", "id", WModelled);                     (* SqlRender.rst r_id *)
+    (* written once, a function of immutable fields *)
+    (chp ++ ".MainFinalizerPlanner", "Alias", WMemo);              (* "" -> "prefinal" *)
+    (chp ++ ".sqlMatch", "patternObj", WMemo);                     (* NewStringVal(pattern) when nil *)
+    (chp ++ ".LabelFormatPlanner", "formatters", WMemo);           (* built when nil *)
+    (inp ++ ".LineFilterPlanner", "re", WMemo);                    (* regexp.Compile(Val) *)
+    (tqp ++ ".AttrConditionPlanner", "alias", WMemo);              (* "bsCond" *)
+    (tqp ++ ".AttrConditionPlanner", "sqlConds", WMemo);           (* maybeCreateWhere: only when empty (TraceqlPlan call index) *)
+    (tqp ++ ".AttrConditionPlanner", "where", WMemo);
+    (tqp ++ ".AggregatorPlanner", "fCmpVal", WMemo);               (* parsed from CompareVal *)
+    (* scratch of one call *)
+    (chp ++ ".LineFormatPlanner", "args", WResetPerCall);          (* ProcessTpl starts from "", nil (fix 3563df1) *)
+    (chp ++ ".LineFormatPlanner", "formatStr", WResetPerCall);
+    (tqp ++ ".AttrConditionPlanner", "isAliased", WResetPerCall);  (* false again when Process returns *)
+    (inp ++ ".ByWithoutPlanner", "labels", WResetPerCall);
+    (inp ++ ".ParserPlanner", "logfmtFields", WResetPerCall);
+    (inp ++ ".ParserPlanner", "parameterTypedValues", WResetPerCall);
+    (inp ++ ".jsonPathProcessor", "labels", WResetPerCall);
+    (* builders of one Plan call *)
+    (chp ++ ".planner", "*", WPlanTime);
+    (tqp ++ ".planner", "*", WPlanTime);
+    (tqp ++ ".simpleExpressionPlanner", "*", WPlanTime);
+    (tqp ++ ".complexExpressionPlanner", "*", WPlanTime);
+    (tqp ++ ".rootExpressionPlanner", "*", WPlanTime);
+    ("traceql/transpiler.ComplexRequestProcessor", "main", WPlanTime);
+    ("traceql/transpiler.SimpleRequestProcessor", "main", WPlanTime);
+    ("traceql/transpiler.SimpleTagsV2RequestProcessor", "main", WPlanTime);
+    ("prof/parser.Script", "Selectors", WPlanTime);                (* populateTypeId appends to a copy of the script struct *)
+    (* sql_select *)
+    ("utils/sql_select.Select", "*", WBuilder);
+    ("utils/sql_select.LogicalOp", "clauses", WBuilder);
+    (chp ++ ".UnionSelect", "MainSelect", WBuilder);
+    (* the context argument *)
+    (shp ++ ".PlannerContext", "From", WContext); (shp ++ ".PlannerContext", "To", WContext);
+    (shp ++ ".PlannerContext", "CachedTraceIds", WContext); (shp ++ ".PlannerContext", "RandomFilter", WContext);
+    (shp ++ ".PlannerContext", "Metrics15sTableName", WContext); (shp ++ ".PlannerContext", "ProfilesDistTable", WContext);
+    (shp ++ ".PlannerContext", "ProfilesSeriesDistTable", WContext); (shp ++ ".PlannerContext", "ProfilesSeriesGinDistTable", WContext);
+    (shp ++ ".PlannerContext", "ProfilesSeriesGinTable", WContext); (shp ++ ".PlannerContext", "ProfilesSeriesTable", WContext);
+    (shp ++ ".PlannerContext", "ProfilesTable", WContext); (shp ++ ".PlannerContext", "SamplesTableName", WContext);
+    (shp ++ ".PlannerContext", "TimeSeriesDistTableName", WContext); (shp ++ ".PlannerContext", "TimeSeriesGinTableName", WContext);
+    (shp ++ ".PlannerContext", "TimeSeriesTableName", WContext); (shp ++ ".PlannerContext", "TracesAttrsDistTable", WContext);
+    (shp ++ ".PlannerContext", "TracesAttrsTable", WContext); (shp ++ ".PlannerContext", "TracesDistTable", WContext);
+    (shp ++ ".PlannerContext", "TracesKVDistTable", WContext); (shp ++ ".PlannerContext", "TracesKVTable", WContext);
+    (shp ++ ".PlannerContext", "TracesTable", WContext);
+    (* rows of the in-process pipeline *)
+    (inp ++ ".aggOpStream", "values", WStream); (shp ++ ".LogEntry", "*", WStream);
+    ("map[string]string", "[*]", WStream); ("[]float64", "[*]", WStream); ("uint64", "[*]", WStream);
+    (* the parsed script *)
+    ("logql/logql_parser.LRAOrUnwrap", "StrSel", WScriptCut); ("logql/logql_parser.StrSelector", "Pipelines", WScriptCut);
+    (* not translation *)
+    ("model.SeriesSet", "idx", WNotTranslation); ("service.RewriteTableV2", "*", WNotTranslation);
+    ("service.labelsGetter", "*", WNotTranslation); ("utils/dsn.StableSqlxDBWrapper", "*", WNotTranslation) ].
+Fixpoint write_class_in (rv : list (string * string * wclass)) (ty fld : string) : option wclass :=
+  match rv with
+  | [] => None
+  | (t, f, c) :: r => if String.eqb t ty && (String.eqb f "*" || String.eqb f fld) then Some c else write_class_in r ty fld
+  end.
+Definition write_class := write_class_in reviewed_writes.
+Definition unreviewed_writes (l : list site4) : list site4 :=
+  filter (fun w => let '(_, _, ty, fld) := w in match write_class ty fld with None => true | Some _ => false end) l.
+(* the distinct (type, field) pairs of one class among the generated writes, in order of first appearance *)
+Fixpoint dedup2 (l : list site2) : list site2 :=
+  match l with [] => [] | x :: r => x :: filter (fun y => negb (site2_eqb x y)) (dedup2 r) end.
+Definition writes_of_class (c : wclass) (l : list site4) : list site2 :=
+  dedup2 (flat_map (fun w => let '(_, _, ty, fld) := w in
+                             match write_class ty fld with
+                             | Some c' => if wclass_eqb c c' then [(ty, fld)] else []
+                             | None => [] end) l).
+(* state that survives a Process call and can differ between two calls: exactly what the model threads *)
+Definition modelled_state : list site2 :=
+  [(chp ++ ".ByWithoutPlanner", "LabelsCache"); (chp ++ ".LabelsJoinPlanner", "LabelsCache"); ("utils/sql_select.With", "[*]");
+   (chp ++ ".PlannerDropSimple", "LabelsCache"); (chp ++ ".WithConnectorPlanner", "WithCache");
+   (shp ++ ".PlannerContext", "id"); ("utils/sql_select.Ctx", "id")].
+(* reviewed lines that no longer match any generated write (a stale review is reported, it is not a violation) *)
+Definition stale_reviews (l : list site4) : list site2 :=
+  map (fun r => let '(t, f, _) := r in (t, f))
+      (filter (fun r => let '(t, f, _) := r in
+                        negb (existsb (fun w => let '(_, _, ty, fld) := w in String.eqb t ty && (String.eqb f "*" || String.eqb f fld)) l))
+              reviewed_writes).
+
 (* ---------- one context whose id counter continues: when is the statement EXACTLY the fresh one? ----------
    PlannerContext.Id() is drawn by SimpleLabelFilterPlanner, MainRenewPlanner and ByWithoutPlanner only
    (CTE aliases subsel_n, pre_by_without_n, labels_n, pre_without_n); any planner this file does not know is
